@@ -93,8 +93,8 @@ fn is_square(n: usize, bound: usize) -> bool {
 // The library's own rejection `panic!` is the expected outcome for non-squares (filtered by the driver);
 // the assertions below run only when `create` returned.
 
-const FLAT_MAX: usize = 4096;
-const ROOT_MAX: usize = 64;
+const FLAT_MAX: usize = 1 << 32;
+const ROOT_MAX: usize = 4096;
 
 #[kani::proof]
 #[kani::stub(neurons::tensor::Tensor::random, stub_random_empty)]
